@@ -371,3 +371,32 @@ def opValidate (j : Json) : Except String Json := do
     | .unchanged => "unchanged" | .sklearn => "sklearn" | .river => "river" | .torch => "torch"))])
 
 end Ixai.Driver
+
+namespace Ixai.Driver
+open Lean Ixai
+
+/-- TreeStorage bookkeeping over recorded oracle answers; data points are observation indices -/
+def opTreeRun (j : Json) : Except String Json := do
+  let L ← getNat j "L"
+  let features ← getNats j "features"
+  let idxs ← getNats j "idxs"
+  let rnd : Rnd Rat := { reals := fun _ => 1/2, idxs := fun i _ => idxs.getD i 0 }
+  let steps ← getArr j "steps"
+  let mut st : Tree.State Rat Nat := Tree.init features
+  let mut r := rnd
+  let mut outs : List Json := []
+  for s in steps do
+    let x ← getNat s "x"
+    let oracle ← (← getArr s "oracle").mapM (fun e => do
+      match e with
+      | Json.arr #[f, leaf, all] => pure ((← asNat f), ((← asNat leaf), (← asNatList all)))
+      | _ => .error "oracle entry [feature, leaf, allLeaves] expected")
+    let (st', r') := Tree.update L st x oracle r
+    st := st'
+    r := r'
+    let view := st.reservoirs.map (fun e => Json.arr #[jNat e.1,
+      Json.arr ((e.2.toArray.qsort (fun a b => a.1 < b.1)).toList.map (fun lr => Json.arr #[jNat lr.1, jNats lr.2.storage_x])).toArray])
+    outs := outs ++ [Json.mkObj [("len", jNat (Tree.len st)), ("reservoirs", Json.arr view.toArray), ("ipos", jNat r.ipos)]]
+  pure (Json.mkObj [("steps", Json.arr outs.toArray)])
+
+end Ixai.Driver
